@@ -112,7 +112,7 @@ StepConnect(e) ==
 StepRecv(e) ==
   LET m  == ObsMsg(e.m)
       q  == ObsPRS(e.prs)
-      nn == ObsParty(e.n)
+      nn == ObsParty(e.n)          \* after Receive, BEFORE the queued message (if any) is handled: see StepHandle
       ans == ObsMsgs(e.sent)
       spec == Receive(n, prs, m)
       kv2 == KnownV(kv, m)  kp2 == KnownP(kp, m)  kprop2 == KnownProp(kprop, m)
@@ -123,9 +123,17 @@ StepRecv(e) ==
                        \cup FailIf(spec.sent # ans, Drift("Receive: answer differs from the model", m.k))
      /\ viol' = viol \cup SoundViol(q, kv2, kp2, kprop2)
                      \cup FailIf(~AnnRecorded(q, m), Viol("AnnouncementRecorded", m.k))
-                     \cup FailIf(m.k = "Maj23" /\ ~AnswerOK(nn, m, ans), Viol("AnswerCorrect", "VoteSetBits"))
+                     \cup FailIf(m.k = "Maj23" /\ ~AnswerOK(n, m, ans), Viol("AnswerCorrect", "VoteSetBits"))
                      \cup BcastViol(nn, ObsMsgs(e.bcast))
      /\ UNCHANGED x
+
+\* the node's consensus.State handles a message the reactor queued (Proposal / BlockPart / Vote / VoteSetMaj23 claim)
+StepHandle(e) ==
+  LET m == ObsMsg(e.m)  nn == ObsParty(e.n) IN
+  /\ n' = nn
+  /\ drift' = drift \cup FailIf(View(Handle(n, m)) # View(nn), Drift("handleMsg: node state differs from the model", m.k))
+  /\ viol' = viol \cup BcastViol(nn, ObsMsgs(e.bcast))
+  /\ UNCHANGED <<x, prs, kv, kp, kprop, kh>>
 
 \* the peer's brain handles an input that does not come from the node (its script, a timeout, a third party's vote)
 StepEnv(e) ==
@@ -191,6 +199,7 @@ Step ==
        CASE e.ev = "Reset"     -> StepReset(e)
          [] e.ev = "Connect"   -> StepConnect(e)
          [] e.ev = "Recv"      -> StepRecv(e)
+         [] e.ev = "Handle"    -> StepHandle(e)
          [] e.ev = "Env"       -> StepEnv(e)
          [] e.ev = "Situation" -> StepSituation(e)
          [] e.ev = "Step"      -> StepStep(e)
